@@ -224,18 +224,21 @@ class Qubit:
 
     def X(self) -> None:
         """Apply an X gate on the qubit."""
+        self.assert_active()
         self.builder._build_cmds_single_qubit(
             instr=GenericInstr.X, qubit_id=self.qubit_id
         )
 
     def Y(self) -> None:
         """Apply a Y gate on the qubit."""
+        self.assert_active()
         self.builder._build_cmds_single_qubit(
             instr=GenericInstr.Y, qubit_id=self.qubit_id
         )
 
     def Z(self) -> None:
         """Apply a Z gate on the qubit."""
+        self.assert_active()
         self.builder._build_cmds_single_qubit(
             instr=GenericInstr.Z, qubit_id=self.qubit_id
         )
@@ -245,12 +248,14 @@ class Qubit:
 
         A T gate is a Z-rotation with angle pi/4.
         """
+        self.assert_active()
         self.builder._build_cmds_single_qubit(
             instr=GenericInstr.T, qubit_id=self.qubit_id
         )
 
     def H(self) -> None:
         """Apply a Hadamard gate on the qubit."""
+        self.assert_active()
         self.builder._build_cmds_single_qubit(
             instr=GenericInstr.H, qubit_id=self.qubit_id
         )
@@ -260,6 +265,7 @@ class Qubit:
 
         A K gate moves the |0> state to +|i> (positive Y) and vice versa.
         """
+        self.assert_active()
         self.builder._build_cmds_single_qubit(
             instr=GenericInstr.K, qubit_id=self.qubit_id
         )
@@ -269,6 +275,7 @@ class Qubit:
 
         An S gate is a Z-rotation with angle pi/2.
         """
+        self.assert_active()
         self.builder._build_cmds_single_qubit(
             instr=GenericInstr.S, qubit_id=self.qubit_id
         )
@@ -290,6 +297,7 @@ class Qubit:
         :param d: denomerator of discrete angle specification
         :param angle: exact floating-point angle, defaults to None
         """
+        self.assert_active()
         self.builder._build_cmds_single_qubit_rotation(
             instruction=GenericInstr.ROT_X,
             virtual_qubit_id=self.qubit_id,
@@ -315,6 +323,7 @@ class Qubit:
         :param d: denomerator of discrete angle specification
         :param angle: exact floating-point angle, defaults to None
         """
+        self.assert_active()
         self.builder._build_cmds_single_qubit_rotation(
             instruction=GenericInstr.ROT_Y,
             virtual_qubit_id=self.qubit_id,
@@ -340,6 +349,7 @@ class Qubit:
         :param d: denomerator of discrete angle specification
         :param angle: exact floating-point angle, defaults to None
         """
+        self.assert_active()
         self.builder._build_cmds_single_qubit_rotation(
             instruction=GenericInstr.ROT_Z,
             virtual_qubit_id=self.qubit_id,
@@ -353,6 +363,8 @@ class Qubit:
 
         :param target: target qubit. Should have the same connection as this qubit.
         """
+        self.assert_active()
+        target.assert_active()
         self.builder._build_cmds_two_qubit(
             instr=GenericInstr.CNOT,
             control_qubit_id=self.qubit_id,
@@ -364,6 +376,8 @@ class Qubit:
 
         :param target: target qubit. Should have the same connection as this qubit.
         """
+        self.assert_active()
+        target.assert_active()
         self.builder._build_cmds_two_qubit(
             instr=GenericInstr.CPHASE,
             control_qubit_id=self.qubit_id,
@@ -372,6 +386,7 @@ class Qubit:
 
     def reset(self) -> None:
         r"""Reset the qubit to the state \|0>."""
+        self.assert_active()
         self.builder._build_cmds_init_qubit(qubit_id=self.qubit_id)
 
     def free(self) -> None:
